@@ -1520,7 +1520,18 @@ private:
       case 19: { typename FS::iterator it(fs, v); sink = char(it.length()); sink = *it; break; }                 // (object, position) constructor
       case 20: { typename FS::const_iterator it(nullptr, v); sink = char(it.length()); sink = *it; break; }
       case 21: { typename FS::reverse_iterator it(fs, v); sink = char(it.length()); sink = *it; break; }
-      default: { typename FS::const_reverse_iterator it(nullptr, v); sink = char(it.length()); sink = *it; break; }
+      case 22: { typename FS::const_reverse_iterator it(nullptr, v); sink = char(it.length()); sink = *it; break; }
+      // writes through iterators that were moved to / beyond the ends: refused or inside the content, never the terminator
+      case 23: { auto it = fs->rbegin(); it -= v; *it = 'w'; break; }
+      case 24: { auto it = fs->begin(); it += v; *it = 'w'; break; }
+      case 25: { auto it = fs->end(); it -= v; *it = 'w'; break; }
+      case 26: { auto it = fs->rend(); it -= v; *it = 'w'; break; }
+      case 27: { auto it = fs->rbegin(); it += v; *it = 'w'; break; }
+      case 28: { auto it = fs->begin(); it -= v; *it = 'w'; break; }
+      case 29: { auto it = fs->rbegin(); for (size_t i = 0; i <= v % 4; ++i) --it; *it = 'w'; break; }
+      case 30: { auto it = fs->end(); for (size_t i = 0; i < v % 4; ++i) it++; *it = 'w'; break; }
+      case 31: { auto it = fs->rbegin(); it += v; it -= v; it -= 1; *it = 'w'; break; }
+      default: { auto it = fs->begin(); it += v; it += 1; *it = 'w'; break; }
       }
       (void)sink;
    }
